@@ -22,6 +22,7 @@ import warnings
 
 import numpy as np
 
+from simkit import isolate
 from simkit import runner as R
 from simkit import sim as K
 from simkit import stream as S
@@ -199,6 +200,22 @@ def discover():
     return found
 
 
+def canonical_remote(url):
+    """Identity of the remote FILE behind a URL.  All shipped datasets live on figshare, which serves file <id> under
+    several host/path forms (figshare.com/ndownloader/files/<id>, ndownloader.figshare.com/files/<id>); two URL
+    strings with the same id are one remote file.  Anything else is identified by host + path."""
+    import re
+    from urllib.parse import urlsplit
+    u = urlsplit(str(url))
+    host = (u.hostname or "").lower()
+    if host.startswith("www."):
+        host = host[4:]
+    m = re.search(r"/files/(\d+)/?$", u.path)
+    if m and (host.endswith("figshare.com") or host.endswith("sim.invalid")):
+        return f"{host.split('.')[-2]}-file:{m.group(1)}"
+    return f"{host}{u.path.rstrip('/')}" + (f"?{u.query}" if u.query else "")
+
+
 class World:
     def __init__(self):
         self.ds = collections.OrderedDict()
@@ -207,7 +224,7 @@ class World:
 
     def add(self, ds):
         self.ds[ds.name] = ds
-        self.by_url.setdefault(ds.url, ds)
+        self.by_url.setdefault(canonical_remote(ds.url), ds)
         if not ds.synthetic:
             self.sim2pinned.setdefault(ds.sim_digest, ds.pinned)
 
@@ -226,10 +243,11 @@ def named_world():
     w = World()
     by_url_rows = {}
     for name, ds in discover().items():
-        if ds.url not in by_url_rows:
-            rnd = random.Random(int.from_bytes(K.REAL.get("sha256", hashlib.sha256)(ds.url.encode()).digest()[:8], "big"))
-            by_url_rows[ds.url] = _rows_from_rng(rnd, rnd.randint(4, 24), rnd.randint(0, 2))
-        ds.rows = by_url_rows[ds.url]
+        cu = canonical_remote(ds.url)
+        if cu not in by_url_rows:
+            rnd = random.Random(int.from_bytes(K.REAL.get("sha256", hashlib.sha256)(cu.encode()).digest()[:8], "big"))
+            by_url_rows[cu] = _rows_from_rng(rnd, rnd.randint(4, 24), rnd.randint(0, 2))
+        ds.rows = by_url_rows[cu]
         _finish_ds(ds)
         w.add(ds)
     _NAMED_WORLD = w
@@ -300,6 +318,8 @@ def gen_storm(st):
     scn["setup"] = ("cold", "warm", "cold+litter", "warm+litter")[st.weighted((4, 3, 1, 1), "setup")]
     scn["home"] = ("env", "arg", "default", "env-tilde", "env-slash", "env-rel")[st.weighted((8, 4, 2, 1, 1, 1), "home")]
     scn["discipline"] = ("sticky", "uniform", "pct", "vtime")[st.weighted((3, 3, 2, 2), "discipline")]
+    if scn["discipline"] == "sticky":
+        scn["burst"] = st.pick((8, 2, 32, 100), "mean-burst-length")
     if scn["discipline"] == "pct":
         scn["pct_points"] = [st.draw(0, 120, "pct-point") for _ in range(st.draw(0, 3, "pct-d"))]
     na = st.weighted((3, 4, 3, 2, 1, 1), "n-actors-class")
@@ -323,6 +343,12 @@ def gen_storm(st):
         if a["via"] == "load_dataset":
             a["dim"], a["force"] = True, False
             a["n_retries"], a["delay"] = None, None
+            # load_dataset accepts **kwargs (what it does with them is not specified, so such a call is judged only
+            # by "whatever is returned is the verified data") - but they must never leak into LATER plain calls
+            k = st.weighted((6, 1, 1, 1, 1), "load_dataset-kwargs")
+            if k:
+                a["ld_kwargs"] = ({"download_even_if_available": True}, {"download_if_missing": False},
+                                  {"data_home": "<alt>"}, {"n_retries": 0, "delay": 0.0})[k - 1]
         else:
             a["dim"] = not st.coin(1, 6, "no-dim")
             a["force"] = st.coin(1, 4, "force")
@@ -438,7 +464,7 @@ class Run:
         filename = (args[1] if len(args) > 1 else kwargs.get("filename")) if fn_name == "urlretrieve" else None
         a.attrs["net_calls"] = a.attrs.get("net_calls", 0) + 1
         a.attrs.setdefault("urls", []).append(url)
-        ds = self.world.by_url.get(url)
+        ds = self.world.by_url.get(canonical_remote(url))
         k = a.attrs.get("attempt", 0)
         plan = a.attrs.get("plan") or []
         att = plan[k] if k < len(plan) else {"kind": "ok", "latency": 0.05, "chunks": 1}
@@ -486,7 +512,7 @@ class Run:
         elif kind == "corrupt_empty":
             body = b""
         elif kind == "cross_served":
-            others = [d for d in self.world.ds.values() if d.url != ds.url]
+            others = [d for d in self.world.ds.values() if canonical_remote(d.url) != canonical_remote(ds.url)]
             body = others[(k + a.id) % len(others)].body if others else b"oops\n"
         a.attrs.setdefault("injected", []).append((kind, exc))
         if exc is not None:
@@ -550,7 +576,10 @@ class Run:
             if via == "fetch":
                 return getattr(importlib.import_module(ds.func_module), ds.func_name)(**kw)
             name = spec.get("spelling") or ds.name
-            return run.datasets.load_dataset(name, unpack_dataset_columns=bool(spec.get("unpack")))
+            extra = dict(spec.get("ld_kwargs") or {})
+            if extra.get("data_home") == "<alt>":
+                extra["data_home"] = os.path.join(run.root, "elsewhere")
+            return run.datasets.load_dataset(name, unpack_dataset_columns=bool(spec.get("unpack")), **extra)
         return fn
 
     def spawn_loader(self, spec, role="loader"):
@@ -702,6 +731,14 @@ class Run:
         key = f"dataset={ds.name}"
         who = f"actor {a.id} ({a.role}, via {spec['via']}, dim={spec.get('dim', True)}, force={spec.get('force', False)})"
         if a.state == K.CRASHED or a.state != K.DONE:
+            return
+        if spec.get("ld_kwargs"):
+            if a.exc is None and not self.matches(a.result, ds, bool(spec.get("unpack"))):
+                self.fail("P2/returned-unverified-data", key, f"{who} called with {spec['ld_kwargs']} returned data that is "
+                          f"not the verified payload of {ds.name}")
+            if isinstance(a.exc, (K.NetworkEscape, K.HarnessTimeout)):
+                raise a.exc
+            self.stats["probe:load_dataset-with-kwargs"] += 1
             return
         net_calls = a.attrs.get("net_calls", 0)
         exc = a.exc
@@ -859,6 +896,7 @@ class Run:
         self.storm_t0 = self.sim.vtime
         self.sim.discipline = scn.get("discipline", "sticky")
         self.sim.pct_points = set(p + self.sim.step for p in scn.get("pct_points", ()))
+        self.sim.sticky_den = scn.get("burst", 8)
         actors = []
         for i, spec in enumerate(scn["actors"]):
             a = self.spawn_loader(spec, role=f"loader{i}")
@@ -919,6 +957,7 @@ class _FakeResponse(io.BytesIO):
 def execute(scn, stream, keep_log=False, extra=None, prop="C19"):
     """Run one scenario. Returns a runner.Result.  `extra(run, storm_actors)` may add oracles (raise Violation)."""
     K.install()
+    isolate.reset_library_state()
     res = R.Result()
     saved_env = {k: os.environ.get(k) for k in ("HOME", "TRAFFIC_WEAVER_DATA")}
     run = None
@@ -1121,10 +1160,14 @@ def retry_scenarios(sample_rng):
     return out
 
 
-def pair_scenario(a, b):
+def pair_scenario(a, b, variant=0):
+    first = _actor_spec(a, via="load_dataset")
+    if variant:
+        first["ld_kwargs"] = ({"download_even_if_available": True}, {"download_if_missing": True, "n_retries": 0},
+                              {"data_home": "<alt>"})[variant - 1]
     return {"gen": "scn", "world": "named", "gzip": False, "targets": [a, b], "setup": "cold", "home": "env",
             "discipline": "serial", "enabled": [], "partition": None,
-            "actors": [_actor_spec(a, via="load_dataset"), _actor_spec(b, via="load_dataset")]}
+            "actors": [first, _actor_spec(b, via="load_dataset")]}
 
 
 def pairsweep_scenarios(tier):
@@ -1170,8 +1213,8 @@ def plan(tier, verif_seed):
     pairs = [(a, b) for a in names for b in names if a != b]
     if tier == "quick":
         pairs = rng.sample(pairs, min(len(pairs), 400))
-    for a, b in pairs:
-        units.append({"gen": "scn", "scenario": pair_scenario(a, b)})
+    for i, (a, b) in enumerate(pairs):
+        units.append({"gen": "scn", "scenario": pair_scenario(a, b, variant=(i % 8) if i % 8 < 4 else 0)})
     n_storm = int(os.environ.get("VERIF_STORMS", "0")) or (16000 if tier == "quick" else 600000)
     units.extend({"gen": "storm"} for _ in range(n_storm))
     return units
